@@ -311,10 +311,10 @@ def main():
             n = run.n(200, max(300, int(9000 * scale())))
             for k in range(n):
                 cases.append(c01lib.gen_doc(run.rng, k, splits, corner=(k % 97 == 13)))
-            # key order: every 4th constructor-made document again with all its mappings sorted / reversed / shuffled
+            # key order: every 5th constructor-made document again with all its mappings sorted / reversed / shuffled
             modes = ["sorted", "reversed", "shuffled"]
-            extra = [c01lib.key_order_case(c, modes[(j // 4) % 3], run.rng) for j, c in enumerate(cases)
-                     if j % 4 == 1 and c.get("tamper") is None and not c.get("corner")]
+            extra = [c01lib.key_order_case(c, modes[(j // 5) % 3], run.rng) for j, c in enumerate(cases)
+                     if j % 5 == 1 and c.get("tamper") is None and not c.get("corner")]
             cases += extra
             cases += c01lib.cross_cases(run.rng, splits)
             for i, c in enumerate(cases):
